@@ -1,10 +1,10 @@
 (* The hypotheses of the composition theorems of Proofs/Join.v / Proofs/JoinTri.v (poly_hyps, tri_hyps) follow from a
    bound on the input coordinates and the stroke width.
-   Ingredients: the line builder's invariant of the ParallelsIterator walk (Proofs/ThicklineOverflow.v
+   Ingredients: the bound on the used join point (Proofs/JoinPointBound.v, after the overflow builder's C08_join_point_bound); the line builder's invariant of the ParallelsIterator walk (Proofs/ThicklineOverflow.v
    parallels_states_fit: every parallel starts within 6w+7 of the line's start; Proofs/Thickline.v parallels_total:
-   the fuel never runs out), and |rounded quotient| <= |numerator| <= 16 B^3 for lines within +-B. *)
+   the fuel never runs out). *)
 From EG Require Import Base.Prelude Base.Lemmas Model.Geometry Model.Style Model.Line Model.Thickline Model.Join Model.JoinTri.
-From EG Require Import Proofs.Geometry Proofs.Line Proofs.Thickline Proofs.ThicklineOverflow Proofs.Join Proofs.JoinTri.
+From EG Require Import Proofs.Geometry Proofs.Line Proofs.Thickline Proofs.ThicklineOverflow Proofs.Join Proofs.JoinTri Proofs.JoinPointBound.
 From Coq Require Import ZifyBool.
 
 Ltac Zify.zify_post_hook ::= Z.to_euclidean_division_equations.
@@ -78,57 +78,39 @@ Proof.
   destruct te, tr; cbn [px py]; repeat split; lia.
 Qed.
 
-(* ---- intersection points of lines within +-322 lie within +-2^29 ------------------------------------------ *)
-Definition rbound : Z := 322.
-
-Lemma lwithin_jline l : lwithin rbound l -> jline_ok l.
-Proof. unfold lwithin, within, jline_ok, jpoint_ok, jbound, rbound. lia. Qed.
+(* ---- used intersection points of lines within +-8191 ---------------------------------------------------------------
+   Proofs/JoinPointBound.v: when nearly_colinear_has_error is false the rounded intersection lies within 536 748 040 < 2^29
+   (the argument of the overflow builder's C08_join_point_bound, with the constant 8191 instead of 1280). *)
+Definition rbound : Z := 8191.
 
 Lemma within_big p : within rbound p -> jpt_big p.
 Proof. unfold within, jpt_big, jbig, rbound. lia. Qed.
 
-Lemma sat_as_i32_abs x : Z.abs (sat_as_i32 x) <= Z.abs x.
-Proof. unfold sat_as_i32, i32_min, i32_max. lia. Qed.
+Lemma lwithin_lbound l : lwithin rbound l -> lbound ebound l.
+Proof. unfold lwithin, within, rbound, lbound, pbound, ebound. tauto. Qed.
 
-Lemma numerators_bound l1 l2 : lwithin rbound l1 -> lwithin rbound l2 ->
-  Z.abs (ip_x_numerator (ip_from_lines l1 l2)) <= 536870912 /\ Z.abs (ip_y_numerator (ip_from_lines l1 l2)) <= 536870912.
+(* the point `fn intersections` uses for a pair of edges within +-8191: within +-2^29, and no cast reached *)
+Lemma used_point_range l1 l2 : lwithin rbound l1 -> lwithin rbound l2 ->
+  isect_used_nosat (ip_from_lines l1 l2) = true /\
+  match ip_intersection (ip_from_lines l1 l2) with
+  | IPoint p _ => jpt_big (if negb (nearly_colinear_has_error (ip_from_lines l1 l2)) then p else l_end l2)
+  | IColinear => True
+  end.
 Proof.
-  intros [[S1x S1y] [E1x E1y]] [[S2x S2y] [E2x E2y]]. unfold rbound in *.
-  set (n1x := px (normal_vector (le_from_line l1))). set (n1y := py (normal_vector (le_from_line l1))).
-  set (n2x := px (normal_vector (le_from_line l2))). set (n2y := py (normal_vector (le_from_line l2))).
-  set (o1 := origin_distance (le_from_line l1)). set (o2 := origin_distance (le_from_line l2)).
-  assert (N1x : Z.abs n1x <= 644) by (subst n1x; unfold le_from_line, rotate_90, line_delta, psub; cbn; lia).
-  assert (N1y : Z.abs n1y <= 644) by (subst n1y; unfold le_from_line, rotate_90, line_delta, psub; cbn; lia).
-  assert (N2x : Z.abs n2x <= 644) by (subst n2x; unfold le_from_line, rotate_90, line_delta, psub; cbn; lia).
-  assert (N2y : Z.abs n2y <= 644) by (subst n2y; unfold le_from_line, rotate_90, line_delta, psub; cbn; lia).
-  assert (O1 : Z.abs o1 <= 414736).
-  { subst o1. unfold le_from_line at 1; cbn [origin_distance]. fold (le_from_line l1). unfold dot_product.
-    assert (Z.abs (px (l_start l1) * px (normal_vector (le_from_line l1))) <= 322 * 644) by (apply abs_mul_le; [lia | exact N1x]).
-    assert (Z.abs (py (l_start l1) * py (normal_vector (le_from_line l1))) <= 322 * 644) by (apply abs_mul_le; [lia | exact N1y]).
-    unfold le_from_line in *; cbn [normal_vector] in *. lia. }
-  assert (O2 : Z.abs o2 <= 414736).
-  { subst o2. unfold le_from_line at 1; cbn [origin_distance]. fold (le_from_line l2). unfold dot_product.
-    assert (Z.abs (px (l_start l2) * px (normal_vector (le_from_line l2))) <= 322 * 644) by (apply abs_mul_le; [lia | exact N2x]).
-    assert (Z.abs (py (l_start l2) * py (normal_vector (le_from_line l2))) <= 322 * 644) by (apply abs_mul_le; [lia | exact N2y]).
-    unfold le_from_line in *; cbn [normal_vector] in *. lia. }
-  split.
-  - unfold ip_x_numerator, ip_from_lines, det2; cbn [ip_le1 ip_le2]. fold o1 o2 n1y n2y.
-    pose proof (abs_mul_le _ _ _ _ O1 N2y). pose proof (abs_mul_le _ _ _ _ O2 N1y). lia.
-  - unfold ip_y_numerator, ip_from_lines, det2; cbn [ip_le1 ip_le2]. fold o1 o2 n1x n2x.
-    pose proof (abs_mul_le _ _ _ _ N1x O2). pose proof (abs_mul_le _ _ _ _ N2x O1). lia.
-Qed.
-
-Lemma isect_point_big l1 l2 : lwithin rbound l1 -> lwithin rbound l2 ->
-  match ip_intersection (ip_from_lines l1 l2) with IPoint p _ => jpt_big p | IColinear => True end.
-Proof.
-  intros H1 H2. unfold ip_intersection. destruct (ip_den (ip_from_lines l1 l2) =? 0) eqn:E; [trivial|].
-  assert (Hd : ip_den (ip_from_lines l1 l2) <> 0) by lia.
-  destruct (numerators_bound l1 l2 H1 H2) as [X Y].
-  pose proof (round_div_raw_abs _ (ip_x_numerator (ip_from_lines l1 l2)) Hd) as Rx.
-  pose proof (round_div_raw_abs _ (ip_y_numerator (ip_from_lines l1 l2)) Hd) as Ry.
-  pose proof (sat_as_i32_abs (round_div_raw (ip_den (ip_from_lines l1 l2)) (ip_x_numerator (ip_from_lines l1 l2)))) as Sx.
-  pose proof (sat_as_i32_abs (round_div_raw (ip_den (ip_from_lines l1 l2)) (ip_y_numerator (ip_from_lines l1 l2)))) as Sy.
-  unfold jpt_big, jbig, round_div; cbn [px py]. lia.
+  intros H1 H2. pose proof (ip_intersection_raw_bound l1 l2 (lwithin_lbound _ H1) (lwithin_lbound _ H2)) as B.
+  unfold isect_used_nosat, isect_nosat.
+  destruct (nearly_colinear_has_error (ip_from_lines l1 l2)) eqn:NE; cbn [orb negb].
+  - split; [reflexivity|]. destruct (ip_intersection (ip_from_lines l1 l2)); [|trivial]. apply within_big. apply H2.
+  - unfold ip_intersection. destruct (ip_den (ip_from_lines l1 l2) =? 0) eqn:Z; [split; [reflexivity | trivial]|].
+    cbn [orb]. specialize (B eq_refl ltac:(lia)). destruct B as [Bx By].
+    unfold ip_intersection_raw in *. cbn [px py] in Bx, By.
+    assert (Ix : in_i32 (round_div_raw (ip_den (ip_from_lines l1 l2)) (ip_x_numerator (ip_from_lines l1 l2))) = true)
+      by (unfold in_i32, i32_min, i32_max; lia).
+    assert (Iy : in_i32 (round_div_raw (ip_den (ip_from_lines l1 l2)) (ip_y_numerator (ip_from_lines l1 l2))) = true)
+      by (unfold in_i32, i32_min, i32_max; lia).
+    split.
+    + unfold pt_in_i32; cbn [px py]. rewrite Ix, Iy. reflexivity.
+    + unfold round_div. rewrite !sat_as_i32_id by assumption. unfold jpt_big, jbig; cbn [px py]. lia.
 Qed.
 
 (* ---- joins ------------------------------------------------------------------------------------------------ *)
@@ -144,31 +126,25 @@ Lemma lj_from_extents_big mid w fl fr sl sr :
   join_big (lj_from_extents mid w fl fr sl sr) /\ edges_nosat fl fr sl sr = true.
 Proof.
   intros Hfl Hfr Hsl Hsr.
-  pose proof (isect_point_big sl fl Hsl Hfl) as PL. pose proof (isect_point_big sr fr Hsr Hfr) as PR.
+  destruct (used_point_range sl fl Hsl Hfl) as [NL PL]. destruct (used_point_range sr fr Hsr Hfr) as [NR PR].
   destruct Hfl as [Fl1 Fl2], Hfr as [Fr1 Fr2], Hsl as [Sl1 Sl2], Hsr as [Sr1 Sr2].
   pose proof (within_big _ Fl2) as B1. pose proof (within_big _ Fr2) as B2.
   pose proof (within_big _ Sl1) as B3. pose proof (within_big _ Sr1) as B4.
-  split.
-  - unfold lj_from_extents, intersections.
-    destruct (ip_intersection (ip_from_lines sl fl)) as [pl ol|]; [|jb].
-    destruct (ip_intersection (ip_from_lines sr fr)) as [pr or_|]; [|jb].
-    cbv beta iota in PL, PR.
-    set (li := if negb (nearly_colinear_has_error (ip_from_lines sl fl)) then pl else l_end fl).
-    set (ri := if negb (nearly_colinear_has_error (ip_from_lines sr fr)) then pr else l_end fr).
-    assert (Li : jpt_big li) by (subst li; destruct (nearly_colinear_has_error (ip_from_lines sl fl)); assumption).
-    assert (Ri : jpt_big ri) by (subst ri; destruct (nearly_colinear_has_error (ip_from_lines sr fr)); assumption).
-    destruct ol.
-    + destruct (negb (le_check_side (le_from_line fr) (l_end sr) SLeft)); [|jb].
-      destruct (_ <=? _); jb.
-    + destruct (negb (le_check_side (le_from_line fl) (l_end sl) SRight)); [|jb].
-      destruct (_ <=? _); jb.
-  - unfold edges_nosat, isect_used_nosat.
-    rewrite (isect_nosat_range sl fl) by (apply lwithin_jline; split; assumption).
-    rewrite (isect_nosat_range sr fr) by (apply lwithin_jline; split; assumption).
-    rewrite !orb_true_r. reflexivity.
+  split; [|unfold edges_nosat; rewrite NL, NR; reflexivity].
+  unfold lj_from_extents, intersections.
+  destruct (ip_intersection (ip_from_lines sl fl)) as [pl ol|]; [|jb].
+  destruct (ip_intersection (ip_from_lines sr fr)) as [pr or_|]; [|jb].
+  cbv beta iota in PL, PR.
+  set (li := if negb (nearly_colinear_has_error (ip_from_lines sl fl)) then pl else l_end fl) in *.
+  set (ri := if negb (nearly_colinear_has_error (ip_from_lines sr fr)) then pr else l_end fr) in *.
+  destruct ol.
+  - destruct (negb (le_check_side (le_from_line fr) (l_end sr) SLeft)); [|jb].
+    destruct (_ <=? _); jb.
+  - destruct (negb (le_check_side (le_from_line fl) (l_end sl) SRight)); [|jb].
+    destruct (_ <=? _); jb.
 Qed.
 
-(* vertices within +-V, width w with V + 6w + 8 <= 322 *)
+(* vertices within +-V, width w with V + 6w + 8 <= 8191 *)
 Definition range_ok (V w : Z) : Prop := 0 <= w /\ 0 <= V /\ V + 6 * w + 8 <= rbound.
 
 Lemma lwithin_mono B B' l : B <= B' -> lwithin B l -> lwithin B' l.
@@ -297,7 +273,7 @@ Proof.
   rewrite (proj2 (lj_from_points_big V w SONone _ _ _ R B1 B2 B3)). reflexivity.
 Qed.
 
-(* C07 for thick polylines from input bounds alone: all vertices within +-V before and after the move, V + 6 w + 8 <= 322 *)
+(* C07 for thick polylines from input bounds alone: all vertices within +-V before and after the move, V + 6 w + 8 <= 8191 *)
 Lemma poly_thick_points_tr_range V w d pts t : range_ok V w ->
   Forall (within V) pts -> Forall (within V) (map (tr_pt d) pts) ->
   poly_thick_points (map (tr_pt d) pts) t w = option_map (map (tr_pt d)) (poly_thick_points pts t w).
@@ -388,4 +364,25 @@ Lemma jt_styled_bounding_box_tr_range V d t w al : range_ok V w -> tri_within V 
 Proof.
   intros R H1 H2. destruct (tri_hyps_range V w al d t R H1 H2) as [A [B C]].
   exact (proj1 (jt_styled_bounding_box_tr d t w al A B C)).
+Qed.
+
+Lemma tri_segs_range_some V w so t : range_ok V w -> tri_within V t ->
+  exists segs, tri_segs (jt_sorted_clockwise t) w so = Some segs.
+Proof.
+  intros R H. pose proof (jt_sorted_clockwise_within V t H) as HC.
+  destruct (jt_sorted_clockwise t) as [[a b] c]. destruct HC as [Ha [Hb Hc]]. cbn [fst snd] in Ha, Hb, Hc.
+  cbn [tri_segs]. rewrite closed_iter_3.
+  destruct (lj_from_points_big V w so c a b R Hc Ha Hb) as [[j0 [-> _]] _].
+  destruct (lj_from_points_big V w so a b c R Ha Hb Hc) as [[j1 [-> _]] _].
+  destruct (lj_from_points_big V w so b c a R Hb Hc Ha) as [[j2 [-> _]] _]. eexists; reflexivity.
+Qed.
+
+(* the styled bounding box of a thick polyline moves with the vertices (input-only form) *)
+Lemma poly_thick_bounding_box_tr_range V w d a b r : range_ok V w ->
+  Forall (within V) (a :: b :: r) -> Forall (within V) (map (tr_pt d) (a :: b :: r)) ->
+  poly_thick_bounding_box (map (tr_pt d) (a :: b :: r)) w =
+  option_map (fun bb => translate_rect bb d) (poly_thick_bounding_box (a :: b :: r) w).
+Proof.
+  intros R F1 F2. apply poly_thick_bounding_box_tr;
+    [exact (poly_nosat_range V w d _ R F1 F2) | exact (poly_box_ok_range V w _ R F1) | exact (poly_box_ok_range V w _ R F2)].
 Qed.
